@@ -111,6 +111,9 @@ def ref_canon(num, val):
         return val
     if num in UINT_OPTS: return val.lstrip(b"\0")
     return val
+def ref_option_order(opts):
+    """RFC 7252 3.1: options appear in order of their numbers; repeated options keep the order in which they were added"""
+    return sorted(opts, key=lambda o: o[0])
 def ref_header(buf):
     """-> (header length incl. code byte, tkl, announced length of options+payload) or None while incomplete"""
     if len(buf) < 1: return None
@@ -188,7 +191,7 @@ class RefReceiver:
     def send(self, code, token, opts, payload):
         if self.done: return
         self.why[len(self.exp)] = "serialize"
-        self.exp.append(["w", summ(ref_enc_frame(code, token, [(n, ref_canon(n, v)) for n, v in opts], payload))])
+        self.exp.append(["w", summ(ref_enc_frame(code, token, ref_option_order([(n, ref_canon(n, v)) for n, v in opts]), payload))])
     def lost(self):
         if self.done: return
         self.exp.append(["err", "ConnectionLost"])
@@ -463,7 +466,7 @@ def gen_conn_case(rng, tier):
     if rng.random() < 0.25 and events:
         for _ in range(rng.randint(1, 2)):
             m = gen_message(rng, rng.choice(["request", "response", PING, PONG, RELEASE, "empty", CSM]))
-            ev = ["send", {"code": m["code"], "token": list(m["token"]), "opts": [[n, list(sendable(n, v))] for n, v in m["opts"]],
+            ev = ["send", {"code": m["code"], "token": list(m["token"]), "opts": insertion_order(rng, [[n, list(sendable(n, v))] for n, v in m["opts"]]),
                            "payload": mk_segs([m["payload"]])}]
             events.insert(rng.randint(0, len(events)), ev)
     if rng.random() < 0.15: events.insert(rng.randint(max(0, len(events) - 1), len(events)), ["lost"])
@@ -496,6 +499,12 @@ def sendable(n, v):
         except UnicodeDecodeError: return b"ok"
     return v
 
+def insertion_order(rng, opts):
+    """outgoing options are added to the message in any order (option_list() sorts them, stably)"""
+    opts = list(opts)
+    if rng.random() < 0.5: rng.shuffle(opts)
+    return opts
+
 def gen_kernel_case(rng, k):
     r = k % 6
     if r == 0:
@@ -509,7 +518,7 @@ def gen_kernel_case(rng, k):
     if r == 2:
         m = gen_message(rng, rng.choice(["request", "response", PING, CSM, "empty"]))
         tok = list(m["token"]) + ([0] * rng.randint(1, 3) if rng.random() < 0.1 and len(m["token"]) == 8 else [])
-        return {"op": "serialize", "code": m["code"], "token": tok, "opts": [[n, list(sendable(n, v))] for n, v in m["opts"]], "payload": mk_segs([m["payload"]])}
+        return {"op": "serialize", "code": m["code"], "token": tok, "opts": insertion_order(rng, [[n, list(sendable(n, v))] for n, v in m["opts"]]), "payload": mk_segs([m["payload"]])}
     if r == 3:
         m = gen_message(rng, rng.choice(["request", "response", PING, CSM, "empty"]))
         frame = bytearray(b"".join(p if isinstance(p, bytes) else bytes(genbyte(p[1], i) for i in range(p[2])) for p in frame_parts(m))[:500])
@@ -533,7 +542,7 @@ class C15(fw.Property):
     coq_props = "Props/C15.v"
     gen_jobs = ["tcp_framing", "options_ext"]
     model_imports = ["Verif.Lib.Py", "Verif.Gen.options_ext", "Verif.Gen.tcp_framing", "Verif.Model.C15"]
-    quick_budget = 420
+    quick_budget = 330
     thorough_budget = 9000
     design_ref = "DESIGN.md section 19"
     technique = ("Coq proofs over the length coding translated from tcp.py/options.py (tie T) and a hand-written model of TcpConnection.data_received / "
@@ -543,7 +552,9 @@ class C15(fw.Property):
                   "data_received is a homomorphism over chunking (any segmentation of a stream gives the same outputs up to the first close); a stream of serialised "
                   "messages is processed exactly as the message sequence; CSM gate; Abort+close on oversize / TKL>8 / unparsable / critical signalling option; "
                   "Ping->Pong with same token; Release/Abort -> error to token manager + close; empty messages ignored; a close() is the last output of a data_received call "
-                  "(nothing after the own Abort), hence the complete outputs are segmentation independent; CSM gate over every event history.")
+                  "(nothing after the own Abort), hence the complete outputs are segmentation independent, also in histories interleaved with outgoing messages / loss; "
+                  "CSM gate over every event history; totality: Options.decode / _decode_message raise nothing but UnparsableMessage on any byte string and no exception "
+                  "leaves data_received in any state on any chunk (local maximum <= 2^40); _serialize layout and decode round trip for options added in any order (option_list).")
     level_note = ("Trusted: Coq kernel + vm_compute; translator + Lib/Py.v (validated by stream kernels); hand model Model/C15.v (validated by stream conn); fake asyncio.Transport "
                   "(delivers no data after close(), like the selector transport); option formats as a fixed table (validated by format_table cases).")
     rule = ("conn: structured streams (CSM, requests, responses, empty, all signalling codes incl. unknown, options of every format, lengths at 12/13/14/268/269/270 and "
@@ -556,8 +567,7 @@ class C15(fw.Property):
                     "hand-written Model/C15.v (validated by the conn stream: full traces, spool, settings, close state)",
                     "fake stream transport: write/close recorded, no data delivered after close(); token manager replaced by a recorder (conn) / real TokenManager (pending)",
                     "CPython's UTF-8 decoder modelled as Unicode table 3-7 (validated by option_value cases)"]
-    assumptions = ["options of outgoing messages are added in non-decreasing number order (option_list() sorting is not modelled)",
-                   "a payload marker followed by an empty payload is accepted (as Options.decode does; C01's domain)"]
+    assumptions = ["a payload marker followed by an empty payload is accepted (as Options.decode does; C01's domain)"]
 
     def gen_cases(self, tier, rng, n):
         n_kernel = n // 4
@@ -793,7 +803,7 @@ class C15(fw.Property):
             payload = segs_bytes(inp["payload"])
             if len(inp["token"]) > 8:
                 return None if res == "exn:ValueError" else ("C15:serialize-long-token", "token of %d bytes serialised: %r" % (len(inp["token"]), res))
-            try: canon = [(n, ref_canon(n, v)) for n, v in opts]; want = ref_enc_frame(inp["code"], bytes(inp["token"]), canon, payload)
+            try: canon = ref_option_order([(n, ref_canon(n, v)) for n, v in opts]); want = ref_enc_frame(inp["code"], bytes(inp["token"]), canon, payload)
             except FormatError: return None
             if isinstance(res, str): return ("C15:serialize-exception", "_serialize raised %s" % res)
             if res["bytes"] != summ(want): return ("C15:serialize-not-rfc8323", "_serialize gives %r, RFC 8323 3.2 gives %r" % (res["bytes"], summ(want)))
